@@ -189,10 +189,10 @@ def run_impl(p):
         res = _apply(p, ra, True)
         # the operand is unchanged (cells and row lengths), and the same call on it gives the same result again
         if np.asarray(ra.ravel()).tobytes() != snap[0].tobytes() or [int(x) for x in ra.lengths] != snap[1]:
-            raise AssertionError("the operand of a scan / sort / unique / diff was modified")
+            raise engine.Inconsistent("the operand of a scan / sort / unique / diff was modified")
         again = _apply(p, ra, True)
         if canon(again if not isinstance(again, tuple) else list(again)) != canon(res if not isinstance(res, tuple) else list(res)):
-            raise AssertionError("the same call on the same operand gave another result")
+            raise engine.Inconsistent("the same call on the same operand gave another result")
         if isinstance(res, tuple):
             return {"k": "obs", "values": canon(res[0]), "counts": canon(res[1])}
         return {"k": "obs", "values": canon(res)}
